@@ -181,6 +181,18 @@ theorem to_xir_ignores_held_values (f : Sym → Option Sc) (p : Prog) : toXIR (p
 example : exProg.reval (fun _ => none) ≠ exProg ∧ toXIR (exProg.reval fun _ => none) = toXIR exProg := by
   decide +kernel
 
+/-- **no state between calls (Blackbird writer)**: the text written for any command (inverted or not,
+measurement or not) does not depend on the values its symbolic parameters hold; the whole program is
+written command by command (`List.mapM`). -/
+theorem to_blackbird_text_ignores_held_values (f : Sym → Option Sc) (tdm : Bool) (c : Cmd) :
+    (toBBOp tdm (c.reval f)).map textOp = (toBBOp tdm c).map textOp :=
+  toBBOp_reval f tdm c
+
+example : (exProg.cmds.map fun c => (toBBOp false (c.reval fun _ => none)).map textOp) =
+    exProg.cmds.map (fun c => (toBBOp false c).map textOp) ∧
+    (exProg.cmds.map fun c => toBBOp false (c.reval fun _ => none)) ≠ exProg.cmds.map (toBBOp false) := by
+  decide +kernel
+
 /-- **the source tables the model transcribes are today's tables** (regenerated from `ops.py` and
 `blackbird_io.py` on every build): `NEGATION_INVERTS` is exactly the list of gates for which the `ops.Gate`
 convention "inverse = negated first parameter" is assumed (adding `MZgate`, a channel or a preparation
